@@ -873,12 +873,16 @@ def check_gen(prop, tier, seed, work):
         sel = [x for x in sel if x[0]["beh"] in genfam.COMPRESSING]
     h, bindir, cs = genfam.prepare_cases(work, sel, path_structs=(prop == "C29"))
     viol = []
+    refused = 0
     for c in cs:
+        if not c.gen_ok and not c.m.get("supported", True):
+            refused += 1      # outside the supported subset (binary list key): a refusal is the documented outcome
+            continue
         if not c.gen_ok:
             viol.append(dict(property=prop if prop != "C27" else "C26", sig=c.sig("generator-error", msg=re.sub(r"[^a-z ]", "", c.gen_out.strip().splitlines()[-1].lower())[:60] if c.gen_out.strip() else ""),
                              detail="%s: the generator fails on a schema of the supported subset: %s" % (c.label(), c.gen_out.strip()[-600:]), case=c.case()))
     build_out, dumps = genfam.dump_all(h, bindir, work, cs)
-    counters = dict(cases=len(cs), generated=sum(1 for c in cs if c.gen_ok), fields=0, schema_nodes=0, path_calls=0)
+    counters = dict(cases=len(cs), generated=sum(1 for c in cs if c.gen_ok), refused_unsupported=refused, fields=0, schema_nodes=0, path_calls=0)
     drift = set()
     if build_out:
         # find the packages that do not compile, report them, and rebuild without them
@@ -999,6 +1003,24 @@ def check_c25(tier, seed, work):
                 cmd += ["-generate_path_structs", "-path_structs_output_file=" + os.path.join(out, "paths.go")]
             p = vf.subprocess.run(cmd + genfam.MODS, cwd=ydir, env=env, stdout=vf.subprocess.PIPE, stderr=vf.subprocess.STDOUT, text=True)
             ev.append(dict(cfg=c.name + ":go", run=r, gomaxprocs=procs[r % len(procs)], h=digest(out) if p.returncode == 0 else "error:" + re.sub(r"^[A-Z]\d+ [\d:.]+ +\d+ ", "", (p.stdout.strip().splitlines() or ["?"])[-1])[:120]))
+            # several include paths: the imported module vgi exists in two of them with different
+            # content, so the order in which the paths are searched decides the output
+            if r == 0:
+                mp = os.path.join(work, "yang", c.name + "-mp")
+                for sub, extra in (("src", None), ("inc1", ""), ("inc2", "  identity I-THREE { base BASE; }\n")):
+                    os.makedirs(os.path.join(mp, sub), exist_ok=True)
+                    if extra is None:
+                        for f in ("vg.yang", "vga.yang"):
+                            shutil.copy(os.path.join(ydir, f), os.path.join(mp, sub, f))
+                    else:
+                        open(os.path.join(mp, sub, "vgi.yang"), "w").write(open(os.path.join(ydir, "vgi.yang")).read().rstrip().rstrip("}") + extra + "}\n")
+            mp = os.path.join(work, "yang", c.name + "-mp")
+            out = os.path.join(work, "det", c.name, "gomp-%d" % r)
+            os.makedirs(out)
+            cmd = [os.path.join(bindir, "generator"), "-logtostderr", "-path=%s,%s,%s" % (os.path.join(mp, "inc1"), os.path.join(mp, "inc2"), os.path.join(mp, "src")),
+                   "-output_file=" + os.path.join(out, "gen.go"), "-package_name=" + c.name] + genfam.BASE + c.flags + ["vg.yang", "vga.yang"]
+            p = vf.subprocess.run(cmd, cwd=os.path.join(mp, "src"), env=env, stdout=vf.subprocess.PIPE, stderr=vf.subprocess.STDOUT, text=True)
+            ev.append(dict(cfg=c.name + ":go-multipath", run=r, gomaxprocs=procs[r % len(procs)], h=digest(out) if p.returncode == 0 else "error:" + re.sub(r"^[A-Z]\d+ [\d:.]+ +\d+ ", "", (p.stdout.strip().splitlines() or ["?"])[-1])[:120]))
             out = os.path.join(work, "det", c.name, "proto-%d" % r)
             cmd = [os.path.join(bindir, "proto_generator"), "-logtostderr", "-path=" + ydir, "-output_dir=" + out, "-base_import_path=example.com/pb"] + genfam.BEH_FLAGS[c.beh] + PSETS[c.fs]
             p = vf.subprocess.run(cmd + genfam.MODS, cwd=ydir, env=env, stdout=vf.subprocess.PIPE, stderr=vf.subprocess.STDOUT, text=True)
@@ -1038,7 +1060,8 @@ def check_c25(tier, seed, work):
                explanation="DetGen.tla (write-once register per configuration; WriteOnce checked by TLC on the abstract model) and trace validation of the recorded "
                "runs: every SchemaGen.tla case (schema x compression behaviour x flag set) is generated %d times in separate processes with GOMAXPROCS in %s -- "
                "Go structs with the embedded schema, path structs (compressed cases) and the protobuf files -- and the digest of everything written is one Run event. "
-               "An error result is an output too (it must be the same error every time). Not covered: other include-path orders, split output files." % (runs, procs[:runs]))
+               "A third configuration per case passes three include paths, two of which hold different copies of the imported identity module. "
+               "An error result is an output too (it must be the same error every time). Not covered: split output files." % (runs, procs[:runs]))
     return cov, viol
 
 
@@ -1093,6 +1116,9 @@ def check_c28(tier, seed, work):
     known = {"ywrapper." + n: "message" for n in ("StringValue", "UintValue", "IntValue", "BoolValue", "BytesValue", "Decimal64Value")}
     for c, res in results:
         rc, out, pdir = res["a"]
+        if rc != 0 and not c.m.get("supported", True):
+            counters["refused_unsupported"] = counters.get("refused_unsupported", 0) + 1
+            continue
         if rc != 0:
             counters["generator_errors"] += 1
             last = out.strip().splitlines()[-1] if out.strip() else ""
